@@ -33,6 +33,7 @@ CONSTANTS
     Budget,      \* total ops over the behaviour (after the init step)
     MaxSteps,    \* driver steps (including the init step)
     InitOps,     \* ops of the first driver step
+    AppRegs,     \* reactors registered at start-up with App::add_reactor (one bundle each, persistent): systems after the world reactors
     StepKinds,   \* subset of {"ops","gc","poll","clear"}
     Features,    \* subset of {"err","notake","take2"}
     Defects,     \* subset of {"swap_remove","append_after","nested_first","insert_dead"} : re-introduced defects
@@ -42,10 +43,12 @@ CONSTANTS
 VARIABLES w, out
 cvars == <<w, out>>
 
-Sys == 1..(NSys + NOnce + NW + NER)
+NApp == Len(AppRegs)
+Sys == 1..(NSys + NOnce + NW + NER + NApp)
 WSysC(i) == NSys + NOnce + i
 EWSysC == NSys + NOnce + NW + 1
-WorldSys == (NSys + NOnce + 1)..(NSys + NOnce + NW + NER)
+AppSysC(i) == NSys + NOnce + NW + NER + i
+WorldSys == (NSys + NOnce + 1)..(NSys + NOnce + NW + NER + NApp)       \* world reactors, entity world reactor, app reactors
 Ents == 1..NEnt
 Tys == 1..NTy
 
@@ -64,7 +67,7 @@ Cmd0 == [c |-> "", s |-> 0, e |-> 0, ty |-> 0, p |-> 0, d |-> 0, h |-> 0, rk |->
 ----------------------------------------------------------------------------
 (* initial world *)
 
-WInit ==
+WInit0 ==
     [ alive |-> (1..NSys) \cup WorldSys, aliveE |-> Ents, spawned |-> {},
       storage |-> [ s \in Sys |-> IF s <= NSys \/ s \in WorldSys THEN "idle" ELSE "absent" ],
       elocal |-> [ e \in Ents |-> 0 ], hasER |-> {},
@@ -91,6 +94,7 @@ WInit ==
       prog |-> [steps |-> <<>>, scripts |-> <<>>] ]
 
 CfgRec == [t |-> "cfg", nsys |-> NSys, nonce |-> NOnce, nent |-> NEnt, nworld |-> NW, neworld |-> NER, hier |-> Hier,
+           app |-> AppRegs, appsys |-> NApp,
            kinds |-> [ i \in 1..NSys |-> "plain" ]]
 
 ----------------------------------------------------------------------------
@@ -146,6 +150,9 @@ RegisterW(x, s, b, rcmode) ==
             ELSE [x1 EXCEPT !.nextH = @ + 1, !.rc = Put(@, h, Len(eff)), !.hs = Put(@, h, s)]
 
 (* [react_commands.rs:revoke_reactor]: type-wide tables lose the first entry of the system, EntityReactors lose all *)
+(* App::add_reactor = ReactCommands::on_persistent at start-up: a fresh system per call, its bundle registered persistently *)
+WInit == FoldSeq(LAMBDA x, i : RegisterW(x, AppSysC(i), AppRegs[i], FALSE), WInit0, [ i \in 1..NApp |-> i ])
+
 RevokeOneW(x, s, tr) ==
     LET k == KeyOf(tr)
         hit(y) == y.s = s /\ y.kd = k.kd /\ y.ty = k.ty /\ y.e = k.e
@@ -473,7 +480,7 @@ OncePost(x, s) ==
 
 RPost(x, fr) ==
     (* :123-153: after the body's commands: once wrapper, GC, reinsert or drop the callback, poll *)
-    LET isonce == fr.s > NSys
+    LET isonce == fr.s \in (NSys + 1)..(NSys + NOnce)
         o == OncePost(x, fr.s)
         g1 == GcW(o.w)
         x1 == g1.w
@@ -763,4 +770,8 @@ CNext ==
            [] fr.f = "d" -> StepD(fr)
 
 Idle == Len(w.stack) = 0
+
+(* named values for AppRegs (shared by MC.tla and TraceConf.tla) *)
+App_None == <<>>
+App_Three == << << <<"bc", 1>> >>, << <<"bc", 1>>, <<"eev", 1, 1>> >>, << <<"res", 1>>, <<"anyev", 1>> >> >>
 =============================================================================
